@@ -3,12 +3,14 @@ import json
 from fractions import Fraction
 
 from harness.core import numeval, pool, tb
+from harness.gen import systems
 from harness.props import _shared
 
-PROOF_MODULE = ["OdeVerif.Proofs.C02", "OdeVerif.Proofs.RefineJacobian"]
-GENERATED = ["PyJacobian"]
+PROOF_MODULE = ["OdeVerif.Proofs.C02", "OdeVerif.Proofs.RefineJacobian", "OdeVerif.Proofs.RefineStep", "OdeVerif.Proofs.RefineShapesPass"]
+GENERATED = ["PyJacobian", "PyStep", "PyShapesPass"]
 THEOREMS = ["OdeVerif.C02.jacobian_correct", "OdeVerif.C02.jacobian_prefix_defect", "OdeVerif.C02.subsystem_lossless",
-            "OdeVerif.Refine.jacobianMatrix_refines", "OdeVerif.Refine.jacobianMatrix_correct"]
+            "OdeVerif.Refine.jacobianMatrix_refines", "OdeVerif.Refine.jacobianMatrix_correct",
+            "OdeVerif.Refine.numericalJacobian_locals", "OdeVerif.Refine.numericalJacobian_entry", "OdeVerif.Refine.fromJsonToShapes_var_not_param"]
 LEVEL = "proof"
 
 NUM_SYSTEMS = [
@@ -17,6 +19,26 @@ NUM_SYSTEMS = [
     {"dynamics": [{"expression": "u'' = -k * u - c * u' + u * u'", "initial_values": {"u": "1", "u'": "0"}}], "parameters": {"k": "4", "c": "0.5"}},
     {"dynamics": [{"expression": "p' = tanh(p) - 2 * p + q", "initial_value": "0.3"}, {"expression": "q' = -q / tau + p**2", "initial_value": "0.1"}], "parameters": {"tau": "0.2"}},
 ]
+
+
+FUNCS = [("I_f", "exp(-t/tau_s)"), ("I_f", "(e/tau)*t*exp(-t/tau)"), ("osc", "sin(w*t)"), ("I_f", "t*exp(-2*t)")]
+
+
+def _extra(rng, g):
+    """sometimes a function-of-time entry that another equation reads, sometimes a custom derivative marker / time-step symbol"""
+    ind = g["indict"]
+    if rng.random() < 0.25:
+        name, f = rng.choice(FUNCS)
+        dyn = ind["dynamics"]
+        dyn.append({"expression": "%s = %s" % (name, f)})
+        k = rng.randrange(len(dyn) - 1)
+        dyn[k]["expression"] += rng.choice([" + %s", " + 2*%s", " - %s**2"]) % name
+        g["has_function"] = True
+        for p in ("tau", "tau_s", "w"):
+            if "parameters" in ind and p in f and p not in ind["parameters"]:
+                ind["parameters"][p] = systems.PARAM_VALUES[p]
+    if rng.random() < 0.3 and "input_time_symbol" not in ind.get("options", {}):
+        ind.setdefault("options", {})["differential_order_symbol"] = rng.choice(["__prime", "_D", "__DD"])
 
 
 def _init_worker():
@@ -105,7 +127,7 @@ def run(ctx, driver):
     ctx.rule = ("generated systems (17 coupling shapes incl. nonlinear / higher order / offsets), analysis stopped before propagators; symbolic Jacobian "
                 "evaluated at a random rational point vs d(user rhs)/dx from the input text; the expression handed to sympy.diff vs the model; "
                 "plus numerical_jacobian vs central differences of step() on 4 fixed systems; distinct = distinct inputs; non-trivial = system with a non-zero A and >= 2 variables or a nonlinearity")
-    cases = _shared.gen_cases(ctx, ctx.n(130, 2500), stop_frac=1.0)
+    cases = _shared.gen_cases(ctx, ctx.n(130, 2500), stop_frac=1.0, extra=_extra)
     for c in cases:
         c["stop"] = True
         c.setdefault("flags", {})["disable_analytic_solver"] = True
@@ -133,6 +155,24 @@ def run(ctx, driver):
                     break
             if bad:
                 break
+        if not bad and "J_stored" in res:
+            # the Jacobian must also be the derivative of the complete stored system A x + b + c (which C02 shows equal to the input):
+            # this covers the rows of function-of-time entries, which have no right-hand side in the input text
+            for i in range(len(x)):
+                for j in range(len(x)):
+                    a, b = res["J"][i][j], res["J_stored"][i][j]
+                    if a is None or b is None:
+                        continue
+                    if not numeval.close(Fraction(a), Fraction(b), Fraction(1, 10 ** 11)):
+                        ctx.fail("jacobian-differs-from-derivative-of-stored-system", case["indict"],
+                                 {"row": x[i], "column": x[j], "observed": float(Fraction(a)), "expected": float(Fraction(b)), "point": res["point"],
+                                  "signature": {"site": "get_jacobian_matrix", "what": "d(Ax+b+c)/dx"}})
+                        break
+                else:
+                    continue
+                break
+            if case.get("has_function"):
+                ctx.count("jacobian_with_function_entry")
         if bad:
             i, j, a, b = bad
             lin_only = res["values"]["c"][i] == "0" or numeval.close(Fraction(res["J"][i][j]), Fraction(res["J_true"][i][j]) - Fraction(res["values"]["A"][i][j]), Fraction(1, 10 ** 11))
